@@ -202,9 +202,12 @@ def eval_flag(name: str, sfacts) -> bool:
     if name.startswith('final_zero_gradient'):
         # "True if at least one [theta|omega|sigma] parameter has a final zero gradient or if
         # final gradient is nan"
-        if sfacts['grad'] is None:
-            raise NeedsData('gradients')
         suffix = name[len('final_zero_gradient_'):] or None
+        if sfacts['grad'] is None:
+            if suffix is None:
+                # no gradient table: what the results' warning list recorded at parse time
+                return bool(sfacts.get('warn_fzg'))
+            raise NeedsData('gradients')
         keys = _subset(sfacts, sfacts['grad'], suffix)
         if suffix is not None and not keys:
             raise EmptySubset(name)
